@@ -7,11 +7,11 @@ EXTENDS Integers, Sequences, TLC, Json, IOUtils, CSV, FiniteSets, SequencesExt
 Out   == IOEnv.VERIF_OUT
 Depth == IF "VERIF_DEPTH" \in DOMAIN IOEnv THEN atoi(IOEnv.VERIF_DEPTH) ELSE 14
 R(X) == RandomElement(X)
-Kinds == {"commit", "msm", "prove", "verify", "ipa", "group", "batch", "codec", "transcript", "poly", "precomp", "crs", "misc", "probe", "probe", "tables"}
+Kinds == <<"commit", "msm", "prove", "verify", "ipa", "group", "batch", "codec", "transcript", "poly", "precomp", "crs", "misc", "failing", "failing", "probe", "probe", "probe", "tables">>
 VARIABLES prog, done
 Init == prog = << >> /\ done = FALSE
 Next == \/ /\ ~done /\ Len(prog) < Depth
-           /\ prog' = Append(prog, [op |-> R(Kinds), a |-> R(0 .. 1000)]) /\ done' = FALSE
+           /\ prog' = Append(prog, [op |-> Kinds[R(1 .. Len(Kinds))], a |-> R(0 .. 1000)]) /\ done' = FALSE
         \/ /\ ~done /\ Len(prog) = Depth
            /\ CSVWrite("%1$s", <<ToJson([ops |-> prog])>>, Out)
            /\ done' = TRUE /\ prog' = prog
